@@ -18,13 +18,14 @@ PLAN = {
         'quick': [('LIVE_3x1', 'mc', None), ('MC_3x1_faults', 'mc', None),
                   ('W_cross', 'witness', 'NoCrossLoopWait')],
         'thorough': [('LIVE_3x1', 'mc', None), ('MC_3x1_faults', 'mc', None), ('MC_3x1_life', 'mc', None),
-                     ('MC_2x1b_all', 'mc', None), ('W_cross', 'witness', 'NoCrossLoopWait')],
+                     ('MC_2x1b_all', 'mc', None), ('MC_2x1b_resume', 'mc', None), ('W_cross', 'witness', 'NoCrossLoopWait')],
     },
     'C06': {
         'quick': [('MC_3x1_faults', 'mc', None), ('MC_2x1b_all', 'mc', None), ('MC_3x1_evict', 'mc', None),
                   ('W_D2', 'witness', 'Inv_C06'), ('W_D1k', 'witness', 'Inv_C06')],
         'thorough': [('MC_3x1_faults', 'mc', None), ('MC_2x1b_all', 'mc', None), ('MC_3x1_life', 'mc', None),
                      ('MC_2x2_life', 'mc', None), ('MC_3x1', 'mc', None), ('MC_3x1_evict', 'mc', None),
+                     ('MC_2x1b_resume', 'mc', None),
                      ('W_D2', 'witness', 'Inv_C06'), ('W_D1k', 'witness', 'Inv_C06')],
     },
 }
@@ -36,7 +37,8 @@ def model_check(ctx):
             ctx.mc('cache', 'MC_Cache', cfg + '.cfg', expect_violation=expect, timeout=600)
         else:
             ctx.mc('cache', 'MC_Cache', cfg + '.cfg', timeout=2400,
-                   require_actions=ALL_ACTIONS + (['Evict'] if 'evict' in cfg else []))
+                   require_actions=ALL_ACTIONS + (['Evict'] if 'evict' in cfg else [])
+                   + (['LoopResume'] if 'resume' in cfg else []))
 
 
 def replay_behaviours(ctx):
@@ -109,7 +111,7 @@ def conformance(ctx, executed, limit=120):
         mod = ('---- MODULE MC_CacheConform ----\nEXTENDS CacheConform\nCLoops == %s\nCCallers == 1..%d\nCLoopOf == %s\n====\n'
                % (loopset, len(callers), loopof))
         cfg = ('INIT CInit\nNEXT CNext\nCONSTANTS\n Loops <- CLoops\n Callers <- CCallers\n LoopOf <- CLoopOf\n MaxInv = 9\n MaxRetry = 9\n'
-               ' OwnMarkerOnly = TRUE\n ForeignCancelRetry = TRUE\n LifeCycles = TRUE\n Cancels = TRUE\n Failures = TRUE\n Timeouts = TRUE\n Evictions = FALSE\n'
+               ' OwnMarkerOnly = TRUE\n ForeignCancelRetry = TRUE\n LifeCycles = TRUE\n Cancels = TRUE\n Failures = TRUE\n Timeouts = TRUE\n Resumes = FALSE\n Evictions = FALSE\n'
                'CONSTRAINT Reached\nCONSTRAINT NotYetAccepted\nCHECK_DEADLOCK FALSE\n')
         work = tlc.scratch('conf-')
         try:
